@@ -1385,6 +1385,9 @@ fn exercise_font(cx: &mut Ctx, data: &[u8], rng: &mut Rng, thorough: bool) {
         let target = *rng.pick(&targets);
         let size = if i < 3 { Size::new(12.0) } else { *rng.pick(&sizes) };
         let cs = rng.pick(&coord_sets).clone();
+        if std::env::var("C02_TRACE").is_ok() {
+            wline(&format!("T HintingInstance::new #{} engine#{} target={:?} size={:?} coords={:?}", i, i % 3, target, size, cs));
+        }
         if let Some(Ok(mut inst)) = cx.api("HintingInstance::new", || HintingInstance::new(&og, size, LocationRef::new(&cs), HintingOptions { engine, target })) {
             let _ = (inst.is_enabled(), inst.size(), inst.target(), inst.location().coords().len());
             if i == 1 {
@@ -1424,13 +1427,21 @@ fn exercise_font(cx: &mut Ctx, data: &[u8], rng: &mut Rng, thorough: bool) {
             };
             let mem: Option<&mut [u8]> = blen.map(|l| &mut big[boff..boff + l]);
             let style = if rng.chance(1, 4) { skrifa::outline::pen::PathStyle::HarfBuzz } else { skrifa::outline::pen::PathStyle::FreeType };
+            let trace = std::env::var("C02_TRACE").is_ok();
             let res = if hinted {
-                let inst = rng.pick(&instances);
+                let ii = rng.below(instances.len() as u64) as usize;
+                let inst = &instances[ii];
                 let ped = rng.chance(1, 2);
+                if trace {
+                    wline(&format!("T draw.hinted gid={} inst#{} size={:?} target={:?} coords={} ped={} buf={:?} style={:?}", g, ii, inst.size(), inst.target(), inst.location().coords().len(), ped, blen, style));
+                }
                 cx.api("draw.hinted", || glyph.draw(DrawSettings::hinted(inst, ped).with_memory(mem).with_path_style(style), &mut NullPen).is_ok())
             } else {
                 let size = *rng.pick(&sizes);
                 let cs = rng.pick(&coord_sets);
+                if trace {
+                    wline(&format!("T draw.unhinted gid={} size={:?} coords={:?} buf={:?} style={:?}", g, size, cs, blen, style));
+                }
                 cx.api("draw.unhinted", || glyph.draw(DrawSettings::unhinted(size, LocationRef::new(cs)).with_memory(mem).with_path_style(style), &mut NullPen).is_ok())
             };
             match res {
